@@ -217,7 +217,7 @@ Proof. induction k; intros s; simpl; [reflexivity|]. rewrite IHk. apply pop_undo
 Definition undo_side (full : bool) (sc : addr -> bool) (s : sdb) (e : entry) : Prop :=
   match e with
   | ECreate a => full = true \/ sc a = false
-  | EPrecompile _ _ scc => full = true /\ forall a, sc a = true -> scc a = true -> objs s a <> None
+  | EPrecompile _ _ scc => forall a, sc a = true -> scc a = true -> objs s a <> None
   | _ => True
   end.
 
@@ -276,7 +276,7 @@ Proof.
   - (* EAccSlot *) simpl. apply rel_with_aux; [exact HR|]. destruct X as (X1&X2&X3&X4). repeat split; simpl; auto.
     intros x y. destruct (Z.eqb x a && Z.eqb y k); auto.
   - (* EPrecompile *)
-    destruct Hside as [Hf Hwf]. simpl. rewrite <- C, Hrep.
+    pose proof Hside as Hwf. simpl. rewrite <- C, Hrep.
     split; [exact J|]. split; [exact T|]. split; [exact C|]. split; [exact X|]. split.
     + intros x Hx. destruct (O x Hx) as [L D]. sdb_simp. split.
       * unfold lookrel, lookup, cur_store. sdb_simp.
@@ -362,7 +362,7 @@ Proof.
   destruct (journal s) as [|e rest] eqn:Hj.
   - pose proof HR as (J&_). rewrite !pop_undo_nil by congruence. exact HR.
   - eapply rel_pop_undo; eauto.
-    destruct e; simpl; auto. split; [reflexivity|]. intros a _ Hs.
+    destruct e; simpl; auto. intros a _ Hs.
     eapply Hwf; [rewrite Hj; left; reflexivity|exact Hs].
 Qed.
 
@@ -396,4 +396,20 @@ Lemma op_ok_le s s' : le s s' -> (WFJ s -> WFJ s') -> op_ok s s'.
 Proof.
   intros HR HW W. pose proof HR as (J&_). split; [rewrite J; lia|]. split; [|auto].
   rewrite J. rewrite unwind_id. exact HR.
+Qed.
+
+Lemma unwind_k_journal k : forall s, journal (unwind_k k s) = skipn k (journal s).
+Proof.
+  induction k as [|k IH]; intros s; [reflexivity|]. simpl. rewrite IH.
+  destruct (journal s) as [|e r] eqn:Hj.
+  - rewrite pop_undo_nil by assumption. rewrite Hj. destruct k; reflexivity.
+  - rewrite (pop_undo_journal s e r Hj). reflexivity.
+Qed.
+
+(** an op_ok step only prepends entries *)
+Lemma op_ok_suffix s s' : op_ok s s' -> WFJ s -> exists es, journal s' = es ++ journal s.
+Proof.
+  intros H HW. destruct (H HW) as (L & (J&_) & _). unfold unwind in J. rewrite unwind_k_journal in J.
+  set (k := (length (journal s') - length (journal s))%nat) in *.
+  exists (firstn k (journal s')). rewrite J. symmetry. apply firstn_skipn.
 Qed.
